@@ -20,7 +20,7 @@ claim("C05",
       "DESIGN.md section 4, C05")
 claim("C07",
       "exhaustive trees x all subsets of AND nodes; metamorphic pair explicit-AND text vs juxtaposed text",
-      "For every enumerated / generated tree every non-empty subset of its AND nodes (<= 6) is written as whitespace; if the juxtaposed text parses, the explicit text must parse to the identical tree, and for gaps with a term token on both sides the juxtaposed text must be accepted whenever the explicit one is.",
+      "For every enumerated / generated tree every non-empty subset of its AND nodes (<= 6) is written as whitespace; if the juxtaposed text parses, the explicit text must parse to the identical tree, and the juxtaposed text must be accepted whenever the explicit one is (gaps after an argument-less ~ or ^ are excluded unless NOT follows: the next term would be the operator's number).",
       "Gaps after an argument-less ~ or ^ are excluded (the next term is that operator's number by grammar). C05 vouches for the explicit reading.",
       "DESIGN.md section 4, C07")
 claim("C09",
